@@ -116,7 +116,12 @@ def gen_ast(rng):
         elif mn in ('nib',):
             ops = [[num]]
         elif mn in ('ldi', 'q12'):
-            ops = [[rng.choice([num, '$' + format(rng.randrange(0, 256), 'x')])]] if not lab else [['BYTE0(', lab, ')']]
+            ops = [[rng.choice([num, '$' + format(rng.randrange(0, 256), 'x'), "'" + rng.choice('xY5+') + "'"] + (['LIM_X'] if pp_mode else []))]] \
+                if not lab else [['BYTE0(', lab, ')']]
+            if pp_mode and rng.random() < 0.3:
+                # a use of a preprocessor symbol between two statements that carry a quoted character (they may end up on one line)
+                items += [('instr', 'ldi', [["'" + rng.choice('xq+') + "'"]]), ('instr', mn, [['LIM_X']]), ('instr', 'ldi', [["'" + rng.choice("yZ") + "'"]])]
+                continue
         elif mn == 'tri':
             ops = [[str(rng.randrange(0, 4096))]]
         elif mn == 'jmp':
@@ -312,7 +317,8 @@ class C18(core.Check):
     required_buckets = {**{'alone:' + k: 3 for k in REWRITES}, 'all-together': 3, 'tab-after-mnemonic': 3,
                         'upper-register-in-brackets': 3, 'upper-register-indexed': 3, 'label-contains-mnemonic': 3,
                         'joined>=2': 3, 'joined>=3': 3, 'label-in-front-of-local-reference': 3, 'corpus-example': 3, 'preprocessor-lines': 3, 'tab-after-directive-keyword': 3, 'quote-in-comment-after-quoted-statement': 3,
-                        'include-line': 3, 'include-line:trailing-comments': 3}
+                        'include-line': 3, 'include-line:trailing-comments': 3,
+                        'symbol-use-between-two-quoted-characters-on-one-line': 3}
 
     def corpus_cases(self, tier, seed):
         import os
@@ -418,6 +424,8 @@ class C18(core.Check):
                     t.add('label-in-front-of-local-reference')
                 if re.search(r'^[^;\n]*["\'][^\n]*;[^\n]*["\']', src, re.M) and 'trailing-comments' in ks:
                     t.add('quote-in-comment-after-quoted-statement')
+                if 'join-instructions' in ks and re.search(r"'.'[^\n;]*\bLIM_X\b[^\n;]*'.'", src):
+                    t.add('symbol-use-between-two-quoted-characters-on-one-line')
                 if 'join-instructions' in ks:
                     for ln in src.split('\n'):
                         c_ = len(re.findall(r'(?i)(?<![\w.])(nop|q4|inr|nib|ldi|q12|tri|jmp|ldx|sel|mv2|lix|liy|bra|psh|ldq|ldn)(?![\w.])', ln.split(';')[0]))
